@@ -23,4 +23,13 @@ int vsum(const std::vector<int> &v);
 long isum(const int *v, int n);
 int total(const int *v, int n);
 double total(const double *v, int n);
+int countNames(char **names, int n);
+int tag(int k, std::string &label);
+class Tally {
+public:
+    static int total();
+    static int scaled(int k);
+    int own() const;
+    int t;
+};
 #endif
